@@ -94,6 +94,7 @@ class _OsProxy:
 class _File:
     def __init__(self, env, path, mode):
         self._env, self._path = env, path
+        env.write_paths.append(path)
         env.tick("open-truncate")
         self._f = open(path, mode)
         self._f.flush()
@@ -149,10 +150,12 @@ class Env:
         self.step = -1
         self.trace = []
         self.loaded = []
+        self.write_paths = []               # files opened for writing by the code under test
         self.interferer = interferer        # list of callables (the other process' steps), or None
         self.progress = progress or []      # progress[i] = interferer steps done before our i-th operation
         self._done = 0
         self._saved = None
+        self.interferer_error = None
 
     # -- step protocol ---------------------------------------------------------------------------
     def tick(self, kind):
@@ -161,8 +164,7 @@ class Env:
         if self.interferer is not None and self.step < len(self.progress):
             target = self.progress[self.step]
             while self._done < target and self._done < len(self.interferer):
-                self.interferer[self._done]()
-                self._done += 1
+                self._other_step()
 
     def dying(self):
         return self.crash_after is not None and self.step == self.crash_after
@@ -171,10 +173,18 @@ class Env:
         if self.dying():
             raise Crash()
 
-    def finish_interferer(self):
-        while self.interferer is not None and self._done < len(self.interferer):
+    def _other_step(self):
+        """one step of the other process; if it fails, that process is dead (remembered, it is a finding of its own)"""
+        try:
             self.interferer[self._done]()
             self._done += 1
+        except Exception as e:
+            self.interferer_error = e
+            self._done = len(self.interferer)
+
+    def finish_interferer(self):
+        while self.interferer is not None and self._done < len(self.interferer):
+            self._other_step()
 
     # -- installation ----------------------------------------------------------------------------
     def install(self):
@@ -226,12 +236,12 @@ def fresh_process(module_names):
     importlib.invalidate_caches()
 
 
-def interferer_steps(path, texts, pyc_path=None, atomic=False):
+def interferer_steps(path, texts, pyc_path=None, atomic=False, tmp_path=None):
     """the write side of ANOTHER process updating the same cache file, in the protocol the code under test uses:
     in place (remove byte-code, truncate, writes, close) or atomic (remove byte-code, private temporary file, writes,
     close, os.replace)"""
     state = {}
-    target = path if not atomic else path + ".99999.tmp"
+    target = path if not atomic else (tmp_path or path + ".99999.tmp")
 
     def rm():
         try:
